@@ -1472,7 +1472,8 @@ package server
 //@   prop C03 C06
 //@   ghost fromG slice
 //@   ghost nowG int = 0
-//@   requires s != nil && limit >= 0
+//@   requires s != nil && limit >= 0 && s.database != nil && s.NamespaceManager != nil && !has($held, addrOf(s.NamespaceManager.lock))
+//@   requires [callers-hold-no-lock-at-or-above-the-namespace-lock] forall l int :: has($held, l) ==> lockLevel(l) < 5
 //@   at call UnixNano#1
 //@     ghost nowG := $result
 //@   at call ToRelatedFrom#1 before
@@ -1484,6 +1485,7 @@ package server
 
 //@ unit (*Store).GetManyRelatedEntities
 //@   prop C03
-//@   requires s != nil
+//@   requires s != nil && s.database != nil && s.NamespaceManager != nil && !has($held, addrOf(s.NamespaceManager.lock))
+//@   requires [callers-hold-no-lock-at-or-above-the-namespace-lock] forall l int :: has($held, l) ==> lockLevel(l) < 5
 //@   at call GetManyRelatedEntitiesBatch#1 before
 //@     assert [C03:an-unpaged-query-asks-for-everything-about-the-requested-start-points] $arg1 == startPoints && $arg2 == predicate && $arg3 == inverse && $arg4 == datasets && $arg5 == 0 && $arg6 == mergePartials
